@@ -1127,12 +1127,13 @@ class C03Executor(ET.ETreeMixin, X.UnitsExecutor):
 
 
 MBOX = "sharepoint2text/parsing/extractors/mail/mbox_email_extractor.py"
+EML_MOD = "sharepoint2text/parsing/extractors/mail/eml_email_extractor.py"
 
 
 def EXECUTOR(module, reg, uni, **kw):
     """Executor per module under verification: the mailbox splitter is verified with C16's executor (bytes of symbolic
     length, re.finditer model) under C16's contract, which C03 shares (message boundaries are part of both properties)."""
-    if module.rel == MBOX:
+    if module.rel in (MBOX, EML_MOD):
         return _mail_executor()(module, reg, uni, **kw)
     return C03Executor(module, reg, uni, **kw)
 
@@ -1287,8 +1288,17 @@ def contracts(reg):
     out.append(flush_page_contract())
     ET.install(reg)
     out.append(parse_spine_contract())
+    # e-mail glue shared with C16 (message boundaries and the body text that becomes the unit are part of both properties): the
+    # mailbox splitter and the .eml body assembly are verified here under C16's contracts (with C16's
+    # executor, see EXECUTOR); C16's remaining contracts are only registered, so that calls inside these functions use them
     from contracts import C16
-    out.append(C16.split_contract())      # one message per non-empty slice between separator lines, in order
+    shared = ("::_split_mbox_messages", "::_read_eml_format")      # (get_body_content's first-part rule is C16's claim, not C03's: see the
+    #                                                                 recorded finding C03-mbox-later-inline-parts-dropped)
+    for c16c in C16.contracts(reg):
+        if c16c.target.endswith(shared):
+            out.append(c16c)
+        elif reg.get(c16c.target) is None:
+            reg.add(c16c)
     from pyvc import solve as _solve
     if _untrusted not in _solve.SAT_UNTRUSTED:
         _solve.SAT_UNTRUSTED.append(_untrusted)
@@ -1379,7 +1389,7 @@ from contracts import c03_flow  # noqa: E402
 from contracts import c03_sections  # noqa: E402
 
 EXTRA = [c03_flow.construction_sites, c03_flow.heading_iterators, c03_sections.odt_step, c03_sections.native_sections,
-         c03_sections.native_documents]
+         c03_sections.native_documents, c03_sections.slide_text_fragments]
 known_findings = c03_sections.known_findings
 REPLAY_UNKNOWN = True    # an obligation the solver leaves unknown is searched natively (replay/C03.py) before it is reported undecided
 
